@@ -188,6 +188,39 @@ def callsite_growth(ctx, quick, rng):
                           f"{bad[0]}: expected {want[bad[0]]}, observed {o[bad[0]]}", {"kind": "utils_callsite", "field": bad[0]}, {"callsite_world": worlds[wi]})
 
 
+def dequantize_context_exception_path(ctx):
+    """spec/EnterExit (Exit runs when Body raises; nothing swallowed) composed with spec/Quantized (Quantize writes the working copy
+    back and drops it): a body that modifies the working copy and raises inside DequantizeQuantizedTensorListContext."""
+    from distributed_shampoo.utils.shampoo_quantization import DequantizeQuantizedTensorListContext, QuantizedTensorList
+    for qd, cd in ((torch.float32, torch.float32), (torch.float16, torch.float32), (torch.bfloat16, torch.float32), (torch.float32, torch.float64)):
+        for nested in (False, True):
+            store = tuple(torch.zeros(3, dtype=qd) for _ in range(2))
+            qtl = QuantizedTensorList(tuple((t, None, None) for t in store), qd, cd)
+            other = QuantizedTensorList(((torch.zeros(2, dtype=qd), None, None),), qd, cd)
+            raised = None
+            try:
+                with DequantizeQuantizedTensorListContext(qtl):
+                    if nested:
+                        with DequantizeQuantizedTensorListContext(other):
+                            other.dequantized_value[0].fill_(2.0)
+                            qtl.dequantized_value[1].fill_(3.0)
+                            raise KeyError("body")
+                    qtl.dequantized_value[1].fill_(3.0)
+                    raise KeyError("body")
+            except KeyError as e:
+                raised = e.args[0]
+            ctx.add("evaluations")
+            ctx.add("traces_validated_against_impl")
+            obs = {"propagated": raised, "stored_after": qtl.is_dequantized_stored(), "written_back": [float(t[0]) for t in qtl.quantized_value],
+                   "same_storage": all(a is b for a, b in zip(qtl.quantized_value, store)),
+                   "inner": None if not nested else [other.is_dequantized_stored(), float(other.quantized_value[0][0])]}
+            want = {"propagated": "body", "stored_after": False, "written_back": [0.0, 3.0], "same_storage": True,
+                    "inner": None if not nested else [False, 2.0]}
+            if obs != want:
+                ctx.violation(f"DequantizeQuantizedTensorListContext with a raising body ({qd}->{cd}, nested={nested}) diverges from EnterExit o Quantized: "
+                              f"expected {want}, observed {obs}", {"kind": "dequantize_ctx_exception"}, {"dequantize_ctx": True})
+
+
 def run_plan(plan, depth):
     from distributed_shampoo.utils.shampoo_utils import ParameterizeEnterExitContext
 
@@ -250,6 +283,7 @@ def utils_growth(ctx, quick, rng):
             ctx.violation(f"{case['kind']} disagrees with spec/Utils on {json.dumps(case)[:300]}: expected {exp['r']}, observed {got}",
                           {"kind": "utils", "fn": case["kind"]}, {"utils_case": case})
     callsite_growth(ctx, quick, rng)
+    dequantize_context_exception_path(ctx)
     # ParameterizeEnterExitContext
     ee = (tlc.SPEC_DIR / "EnterExit.tla").read_text()
     for d in ((1, 2) if quick else (1, 2, 3)):
@@ -280,6 +314,9 @@ def replay(ctx, r):
         ctx.add("evaluations")
         if got != expected[0]["r"]:
             ctx.violation(f"{case['kind']} disagrees with spec/Utils", {"kind": "utils", "fn": case["kind"]}, r)
+        return True
+    if "dequantize_ctx" in r:
+        dequantize_context_exception_path(ctx)
         return True
     if "callsite_world" in r:
         class _One:
